@@ -6,7 +6,8 @@ from debian_inspector import contents
 
 ID = 'C18'
 LEVEL = 'proof'
-THEOREMS = [('DebInspector.Thm.C18', ['Props.C18.pairs_appendTo', 'Props.C18.addRow_pairs', 'Props.C18.inverse_complete'])]
+THEOREMS = [('DebInspector.Thm.C18', ['Props.C18.sound', 'Props.C18.inverse_complete', 'Props.C18.splitLine_row', 'Props.C18.names_row',
+                                      'Props.C18.header_isHeaderRow', 'Props.C18.pairs_appendTo', 'Props.C18.addRow_pairs'])]
 TRUSTED = [
     'Lean 4.33.0 kernel',
     'reading of the property as Props.C18.holdsOn (expected mappings built from the table; header clauses)',
@@ -18,13 +19,13 @@ ASSUMPTIONS = ['tables contain no carriage returns; the process locale decodes U
 RULE = ('tables of 0-40 rows, paths with embedded spaces and non-ASCII, 1-5 qualified package names per row with 0-2 qualifiers, duplicate paths, '
         'any column padding; with / without narrative and FILE LOCATION row x has_header True/False; each table is written to a real file, plain and gzip. '
         'non-trivial = at least two rows')
-TECHNIQUE = ('Lean 4 theorem: the two mappings built by the fold are permutations of the same (path, package) pair list (inverse and complete) + '
-             'executable expected-mapping specification on every observation + correspondence through real plain and gzip files')
-LEVEL_TEXT = ('Props.C18.inverse_complete: for every list of parsed rows (any number, any names, duplicates) the path-to-packages and the '
-              'package-to-paths mapping built by the model fold hold exactly the same (path, package) pairs, with multiplicity, as the rows themselves '
-              '(each is a permutation of the row pair list), proved in Lean 4 by induction over the fold. That each rendered row parses to its path and bare '
-              'names, the header clauses and the gzip/plain equality are decided by the executable specification on observations taken from real files '
-              'and by correspondence; they are not theorems.')
+TECHNIQUE = ('Lean 4 theorem Props.C18.sound: for every table of the grammar the model of parse_contents returns exactly the expected mappings and the header clauses hold; '
+             'inverse_complete: the two mappings are permutations of the same pair list + the same executable specification on observations from real plain and gzip files + correspondence')
+LEVEL_TEXT = ('Props.C18.sound: for every table of the grammar - any number of rows, paths with embedded spaces (no leading/trailing white space, no line break), one to many qualified package names with zero to two qualifiers, '
+              'any column padding, with or without header narrative - the model of parse_contents (from the lines of the file on) returns exactly the expected mappings: each row splits at its last space into its path and '
+              'the comma-separated names, qualifiers stripped at the last slash (splitLine_row, names_row), free text before a declared FILE/LOCATION row is ignored, a declared header that is missing or an undeclared header that is present '
+              'raises (header_isHeaderRow). Props.C18.inverse_complete: for every list of parsed rows the two mappings hold exactly the same (path, package) pairs with multiplicity (mutually inverse and complete). '
+              'Proved in Lean 4 by induction over rows and characters. Reading the file (plain or gzip, decoding, line iteration) is outside the model: the gzip = plain clause and the tie of the model to the code are decided on real files by correspondence.')
 LEVEL_NOTE = ('Trusted: Lean kernel; axioms propext, Classical.choice, Quot.sound only; I/O, gzip and codecs are exercised, not modelled.')
 
 WORK = os.path.join(os.path.dirname(os.path.dirname(os.path.dirname(os.path.abspath(__file__)))), 'work')
